@@ -4,6 +4,7 @@ real code, leg B (TLC trace validation), known-finding matching, evidence, exit 
 Exit codes: 0 property held on everything explored (KNOWN-FINDING lines allowed),
             1 VIOLATION, 2 machinery failure (nothing it reports is a verdict on the code)."""
 import collections
+import contextlib
 import concurrent.futures as cf
 import importlib
 import json
@@ -166,9 +167,10 @@ def trace_of(tw, t):
 def _job_runner(args):
     modname, fname, job = args
     sys.dont_write_bytecode = True
-    mod = importlib.import_module(modname)
     try:
-        return ("ok", getattr(mod, fname)(job))
+        mod = importlib.import_module(modname)
+        with open(os.devnull, "w") as dn, contextlib.redirect_stdout(dn):      # the library prints advice to stdout
+            return ("ok", getattr(mod, fname)(job))
     except Exception:  # noqa: BLE001
         return ("err", traceback.format_exc())
 
@@ -269,7 +271,9 @@ def main(pid, tier, seed):
             cov["machinery_failures"] = failures
             if exit_code == 0:
                 exit_code = 2
-    except MachineryFailure as e:
+    except Exception as e:  # noqa: BLE001  (MachineryFailure or anything unexpected: never a verdict on the code)
+        if not isinstance(e, MachineryFailure):
+            e = MachineryFailure("unexpected %s: %s\n%s" % (type(e).__name__, e, traceback.format_exc()[-1500:]))
         print("MACHINERY-FAILURE: %s" % e)
         evidence["coverage"].setdefault("explanation", "machinery failure: %s" % e)
         evidence["coverage"]["machinery_failures"] = [str(e)]
